@@ -1,4 +1,4 @@
-\* every option on its own (and the empty program) on every image and placement class
+\* programs of length 0..1 over the whole vocabulary (-simulate; the runner keeps one scenario per option)
 CONSTANTS
  Images <- ImagesGen
  Options <- OptsGen
@@ -8,6 +8,8 @@ CONSTANTS
  FixWriter = FALSE
  FixAdded = FALSE
  FixTag = FALSE
+ FixClose = FALSE
+ SrcKinds = {"reg", "dir"}
  Fine = FALSE
 SPECIFICATION Spec
 INVARIANT Emit
